@@ -102,7 +102,7 @@ PROPS = {
                        "discharged (copy_reads_exactly_in), giving E2E_stack_readable with no assumption about the reader, and E2E_stack_recorded "
                        "(such a stack is recorded: the gathering succeeds with a region).",
         "extra_modules": ["MdwModel.Theorems.EndToEnd", "MdwModel.Theorems.EndToEndMem"],
-        "extra_theorems": ["gather_inv", "E2E_stack_contains_sp", "gather_order_agrees", "E2E_crash_thread", "E2E_other_thread", "E2E_threads", "E2E_crash_thread_full", "copy_readable", "copy_reads_exactly_in", "E2E_stack_readable", "E2E_stack_recorded"],
+        "extra_theorems": ["gather_inv", "E2E_stack_contains_sp", "gather_order_agrees", "gather_crash_unlimited", "E2E_crash_thread", "E2E_other_thread", "E2E_threads", "E2E_crash_thread_full", "copy_readable", "copy_reads_exactly_in", "E2E_stack_readable", "E2E_stack_recorded"],
     },
     "C20": {
         "rule": "real stack_has_pointer_to_mapping on stacks of length 0 … 64 with words at / next to both ends of the principal mapping at all "
@@ -219,7 +219,7 @@ PROPS = {
                        "is the serialised list of registered blocks; every captured stack, instruction-pointer window and application region is such a block with "
                        "the requested address and the length read, and the image holds its captured bytes at the block's location. Theorems/System.lean states these for the request as one function (systemDump = dumpBytes ∘ gatherDump over the observed target state, the reader being the C17 model): System_stack and System_app say that the image records stacks and readable application regions with their addresses, lengths and the target's bytes, and lists them in the memory list.",
         "extra_modules": ["MdwModel.Theorems.System"],
-        "extra_theorems": ["System_stack", "System_app", "gatherApp_get", "System_window"],
+        "extra_theorems": ["System_stack", "System_app", "gatherApp_get", "gatherApp_descriptor_agrees", "System_window"],
     },
     "C14": {
         "rule": "BuildId::read_from_module / SoName::read_from_module (slice mode, each under catch_unwind) on: random byte strings of 0 … 200 bytes; "
